@@ -151,7 +151,52 @@ def run(ctx):
             os.remove(trace)
     for t in ctx.cov["trace_runs"]:
         t["cfg"] = "ops/Trace_Onnx.cfg"
+    if not ctx.quick:
+        self_test(ctx)
     finish(ctx, acc, bad, badtotal, stats, perop, ops)
+
+
+def self_test(ctx):
+    """Binding self-test: corrupt single recorded fields of a small trace; the trace spec must flag each
+    corruption with the right class (and must not accept a trace with a dropped record)."""
+    base = ctx.path("selftest_base.ndjson")
+    record(ctx, ["Transpose", "Identity"], 12, base)
+    recs = [json.loads(l) for l in open(base)]
+    results = {}
+    for kind, want in (("value", "data"), ("shape", "shape"), ("dtype", "dtype"), ("panic", "panic")):
+        out = []
+        done = False
+        for r in recs:
+            r = json.loads(json.dumps(r))
+            if (not done and r["ev"] == "ret" and r["outcome"] == "ok" and len(r["outs"][0]["data"]) >= 2
+                    and len(r["outs"][0]["shape"]) >= 2):
+                o = r["outs"][0]
+                if kind == "value":
+                    o["data"][1] += 1
+                elif kind == "shape":
+                    o["shape"] = o["shape"] + [1]
+                elif kind == "dtype":
+                    o["dtype"] = "u8" if o["dtype"] != "u8" else "i8"
+                else:
+                    r["outcome"], r["outs"] = "panic", []
+                done = True
+            out.append(r)
+        if not done:
+            raise vlib.ToolError("binding self-test: no record to corrupt")
+        path = ctx.path("selftest_%s.ndjson" % kind)
+        with open(path, "w") as f:
+            f.write("".join(json.dumps(r) + "\n" for r in out))
+        cfg = ctx.path("Trace_Onnx_selftest_%s.cfg" % kind)
+        with open(cfg, "w") as f:
+            f.write(open(os.path.join(vlib.SPECS, "ops/Trace_Onnx.cfg")).read())
+        res = ctx.tlc_trace("ops/Trace_Onnx", cfg, path, timeout=600)
+        classes = sorted(b["sig"]["class"] for b in res["bad"])
+        results[kind] = classes
+        if classes != [want]:
+            raise vlib.ToolError("binding self-test failed: corruption '%s' gave %s, expected ['%s']" % (kind, classes, want))
+    ctx.cov["binding_self_test"] = {"corruptions_detected": results, "note": "one recorded output field corrupted per run; "
+                                    "a trace with a dropped record is not accepted by Trace_Onnx (strict case/ret alternation)"}
+    ctx.cov["trace_runs"] = [t for t in ctx.cov["trace_runs"] if "selftest" not in t["trace"]]
 
 
 def finish(ctx, acc, bad, badtotal, stats, perop, ops):
